@@ -202,7 +202,25 @@ def run(ctx):
     cases = C04.dedup(cases)
     if not cases:
         raise core.MachineryError("no scenarios")
+    # exhaustive small profile c18s: ONE computed-include directive (in a header) evaluated once or twice in a translation
+    # unit, its macro redefined in between to a header that exists or to a name that exists nowhere
+    p = os.path.join(core.OUT, f"GenScen_c18sM_{os.getpid()}.cfg")
+    open(p, "w").write(cfg.format(profile="c18s", shard=1, nshards=1) +
+                       "INVARIANT HonouredIsSilent\nINVARIANT WarnsOnlyReached\nINVARIANT RefTotal\n")
+    try:
+        r = core.tlc("GenScen", p, workers=runner.NCPU, timeout=900, tag="C18sM", heap="4g")
+    finally:
+        os.unlink(p)
+    ctx.add_tlc("GenScen c18s HonouredIsSilent/WarnsOnlyReached (every scenario)", r)
+    if r.violation:
+        ctx.model_violation("GenScen_c18s", r)
+    small = C04.dedup(runner.sharded_tlc(ctx, "GenScen", cfg.format(profile="c18s", shard="@SHARD@", nshards="@NSHARDS@"), 4,
+                                         "GenScen_c18s", timeout=900))
+    ctx.cov["scenarios_exhaustive_c18s"] = len(small)
+    cases = small + cases
     ctx.cov["rule"] = (
+        "every scenario of the small profile c18s (a header whose body is one computed include, included once or twice by a "
+        "translation unit that redefines the macro in between - to an existing header or to a name that exists nowhere) and "
         "TLC-simulated GenScen scenarios of profile c18: header bodies and main statements with includes of a name that "
         "exists nowhere (quote and angle form, in reached and #if 0 branches, in headers included once or several times), "
         "unknown directives, computed includes, 3 TUs over 2 platforms, each TU's command optionally naming an unknown "
